@@ -244,23 +244,6 @@ def det_runs(ctx, d, texts, files, opts, idx, use_valgrind=True):
     return res
 
 
-def vg_only_set_cxer_memcmp(summary):
-    """finding C12-set-cxer-map-uninit, as narrow as its cause: every error memcheck reports is the comparison of
-    the two tag maps in asn1c_lang_C_type_SET_def (memcmp/bcmp called from there, or the branch on its result)"""
-    blocks = [b for b in re.split(r"\n\s*\n", summary) if "at 0x" in b]
-    if not blocks:
-        return False
-    for b in blocks:
-        frames = re.findall(r"(?:at|by) 0x[0-9A-F]+: (\S+)", b)
-        if not frames:
-            return False
-        if frames[0] in ("bcmp", "memcmp", "__memcmp_avx2_movbe", "__memcmp_sse4_1"):
-            frames = frames[1:]
-        if not frames or frames[0] != "asn1c_lang_C_type_SET_def":
-            return False
-    return True
-
-
 def report_det(run, rep, r, what):
     """turns a det_runs result into violations / counters; returns True when quiet"""
     ok = True
@@ -274,13 +257,9 @@ def report_det(run, rep, r, what):
     if "vg" in r:
         run.count("valgrind_runs" if r["vg"][0] != 999 else "valgrind_timeouts")
         if r["vg"][0] == VG_RC:
-            if vg_only_set_cxer_memcmp(r["vg"][1]) and not bad:
-                run.known_finding("C12-set-cxer-map-uninit", what)
-                run.count("valgrind_known:C12-set-cxer-map-uninit")
-            else:
-                ok = False
-                run.violation("oracle:uninitialised-read", dict(rep, what="valgrind memcheck reports an error in asn1c (%s)" % what,
-                              valgrind=r["vg"][1]))
+            ok = False
+            run.violation("oracle:uninitialised-read", dict(rep, what="valgrind memcheck reports an error in asn1c (%s)" % what,
+                          valgrind=r["vg"][1]))
     return ok
 
 
@@ -821,10 +800,26 @@ def main(tier):
         opts = OPTION_SETS[i % len(OPTION_SETS)] if i < 2 * len(OPTION_SETS) else rng.choice(OPTION_SETS)
         extras = {0: ["dforms"], 4: ["dupfile"]}.get(i % 9, [])
         rich.append((m, opts, extras))
-    # dedicated witness of finding C12-includes-keyword-dropped (kept in every run, so that a fix shows up)
-    wi = "WitIncl DEFINITIONS ::= BEGIN\nBase ::= INTEGER (0..%d)\nInl ::= INTEGER (INCLUDES INTEGER (1..%d))\nRef ::= INTEGER (INCLUDES Base | %d)\nEND\n" % (
-        rng.range(50, 99), rng.range(2, 40), rng.range(100, 200))
+    # contained subtypes whose type is NOT a reference (`INCLUDES` is then part of the notation: asn1c -E dropped it until the
+    # repair of C12-includes-keyword-dropped); in every run: the printed text must be accepted and print to itself (oracle:fixpoint)
+    wi = ("WitIncl DEFINITIONS ::= BEGIN\nBase ::= INTEGER (0..%d)\nInl ::= INTEGER (INCLUDES INTEGER (1..%d))\nRef ::= INTEGER (INCLUDES Base | %d)\n"
+          "Bare ::= INTEGER (INCLUDES INTEGER)\nUni ::= INTEGER (0 | INCLUDES INTEGER (%d..%d) | 99)\n"
+          "Oct ::= OCTET STRING (INCLUDES OCTET STRING (SIZE(1..%d)))\nStr ::= IA5String (INCLUDES IA5String (SIZE(1..4)) ^ FROM(\"a\"..\"f\"))\n"
+          "Refc ::= INTEGER (INCLUDES Base (0..5))\nEND\n") % (
+        rng.range(50, 99), rng.range(2, 40), rng.range(100, 200), rng.range(2, 5), rng.range(6, 9), rng.range(2, 30))
     rich.append(({"name": "WitIncl", "text": wi, "blocks": ["witness-includes-inline"], "alph": {}, "ids": []}, OPTION_SETS[0], []))
+    # SET types at the decision "separate canonical-XER tag map or `Same as above`" (asn1c_lang_C_type_SET_def; it was taken by a memcmp over
+    # tag2el_count BYTES, uninitialised ones included, until the repair of C12-set-cxer-map-uninit): five and more components with equal
+    # maps (memcheck must be silent, `Same as above`), and an extensible SET whose additions are not in tag order (the maps differ from
+    # the second/third entry on: the canonical-XER map must be emitted, root sorted by tag, additions in definition order)
+    ws = ("WitSetCxer DEFINITIONS ::= BEGIN\n"
+          "SetSame ::= SET { a [1] INTEGER, b [3] INTEGER, c [5] INTEGER, d [7] INTEGER, e [9] INTEGER, f [11] BOOLEAN OPTIONAL }\n"
+          "SetExt ::= SET { a [%d] INTEGER, b [%d] INTEGER, ..., c [1] INTEGER, d [0] INTEGER }\n"
+          # a long bit-string value printed before shorter ones: asn1f_printable_value wrote `'..'HH` without a terminator into its static
+          # buffer, so the comment showed the tail of the longer text printed before (C12-printable-bitvector-unterminated, repaired)
+          "BitDef ::= SEQUENCE { a [0] BIT STRING DEFAULT '00000010110011000'B, b [1] BIT STRING DEFAULT '9A6B'H, c [2] BIT STRING DEFAULT '101'B }\n"
+          "END\n") % (rng.range(5, 9), rng.range(2, 4))
+    rich.append(({"name": "WitSetCxer", "text": ws, "blocks": ["witness-set-cxer"], "alph": {}, "ids": []}, OPTION_SETS[0], []))
     rich_futs = [pool.submit(case_rich, ctx, i, m, opts, extras) for i, (m, opts, extras) in enumerate(rich)]
     nclash = 14 if quick else 90
     csets = []
@@ -833,8 +828,8 @@ def main(tier):
         opts = OPTION_SETS[0] if i % 2 == 0 else rng.choice(OPTION_SETS)
         csets.append((mods, opts))
     clash_futs = [pool.submit(case_clash, ctx, i, mods, opts, 6) for i, (mods, opts) in enumerate(csets)]
-    # cross-module constraint resolution: every shape once (directed), then random shapes; two witnesses of the
-    # recorded finding
+    # cross-module constraint resolution: every shape once (directed), then random shapes; plus the two text-level
+    # witnesses of the repaired C12-includes-foreign-namespace (ordinary cases now: every order must agree)
     nx = 18 if quick else 120
     xsets = []
     for i in range(nx):
@@ -1014,6 +1009,24 @@ def main(tier):
         if report_det(run, rep, det, "rich module"):
             run.count("rich_determinism_ok")
         check_tables_in_tree(run, rep, r["tree"], m["alph"], cn)
+        if "witness-set-cxer" in m["blocks"]:
+            same_c = r["tree"].get("SetSame.c", b"").decode("latin1")
+            ext_c = r["tree"].get("SetExt.c", b"").decode("latin1")
+            mm = re.search(r"asn_MAP_SetExt_tag2el_cxer_1\[\] = \{\n(.*?)\n\};", ext_c, flags=re.S)
+            order = re.findall(r"/\* (\w+) \*/", mm.group(1)) if mm else None
+            if det["rc0"] != 0 or "tag2el_cxer_1[]" in same_c or "asn_MAP_SetSame_tag2el_1,\t/* Same as above */" not in same_c or order != ["b", "a", "c", "d"]:
+                run.violation("oracle:set-cxer-map", dict(rep, what="canonical-XER tag map of a SET: expected `Same as above` for SetSame (equal maps) and a separate "
+                              "map b,a,c,d for SetExt (root by tag, additions in definition order)", rc=det["rc0"], setext_order=order,
+                              setsame_has_own_map="tag2el_cxer_1[]" in same_c))
+            else:
+                run.count("set_cxer_map_ok")
+            bit_h = r["tree"].get("BitDef.h", b"").decode("latin1")
+            cm = re.findall(r"/\* DEFAULT (.*?) \*/", bit_h)
+            if cm != ["'00000010110011000'B", "'9A6B'H", "'101'B"]:
+                run.violation("oracle:value-text", dict(rep, what="the DEFAULT comments of BitDef.h are not the three bit-string values as written: the text "
+                              "of a value depends on what was printed before it", comments=cm))
+            else:
+                run.count("bitvector_text_ok")
         rc1, rc2, same, rc_as_gen = r["P"]
         if rc1 != rc2 or not same:
             run.violation("oracle:determinism", dict(rep, what="asn1c -P printed different text on a second run", rcs=[rc1, rc2]))
@@ -1035,8 +1048,7 @@ def main(tier):
             if rc1 == 0 and same:
                 run.count("rich_fixpoint_ok")
                 if "witness-includes-inline" in m["blocks"]:
-                    run.violation("oracle:finding-not-reproduced", dict(rep, what="the witness of C12-includes-keyword-dropped is a print/parse fixpoint: "
-                                  "finding fixed? (update findings.d/C12.json)"), no_input=True)
+                    run.count("includes_inline_fixpoint_ok")
             else:
                 cls = classify_rich_fixpoint(m, t1.decode("latin1"), rc1, se1)
                 if cls:
@@ -1199,34 +1211,15 @@ def main(tier):
                                     first_diff(base["pc"].get(dm[0], {}).get("text", ""), p["pc"].get(dm[0], {}).get("text", ""))}
             if why:
                 deviating.append((p["perm"], why))
-        pairs = includes_foreign_with_refs(mods)
         if deviating:
-            dev_perms = [d[0] for d in deviating] 
-            all_perms = [p["perm"] for p in perms]
-            explained = False
-            for (pi, qi) in pairs:
-                # the results agree among the orders that name Q before P; every other result belongs to an order with P before Q
-                good = [pm for pm in all_perms if pm.index(qi) < pm.index(pi)]
-                badp = [pm for pm in all_perms if pm.index(pi) < pm.index(qi)]
-                ref = good[0] if good else None
-                classes = {pm: (pm not in dev_perms) == (all_perms[0] not in dev_perms or pm == all_perms[0]) for pm in all_perms}
-                if good and all(same_xmod_result(perms, g, ref) for g in good) and \
-                        all(pm in badp for pm in all_perms if not same_xmod_result(perms, pm, ref)):
-                    explained = True
-            if explain_stale_asn(xs, perms):
-                run.known_finding("C12-print-constraints-stale-asn", xs["shape"])
-                run.count("xmod_known:C12-print-constraints-stale-asn")
-            elif explained:
-                run.known_finding("C12-includes-foreign-namespace", xs["shape"])
-                run.count("xmod_known:C12-includes-foreign-namespace")
-            else:
-                run.violation("oracle:file-order", dict(rep, what="exit status, printed constraints or per-type files depend on the order of the input file list "
-                              "(constraint resolution across modules)", deviating=[list(map(str, x)) for x in deviating[:4]]))
+            run.violation("oracle:file-order", dict(rep, what="exit status, printed constraints or per-type files depend on the order of the input file list "
+                          "(constraint resolution across modules)", deviating=[list(map(str, x)) for x in deviating[:4]]))
         else:
             run.count("xmod_order_independent")
-            if xs["witness"]:
-                run.violation("oracle:finding-not-reproduced", dict(rep, what="the witness of C12-includes-foreign-namespace is order independent: "
-                              "finding fixed? (update findings.d/C12.json)"), no_input=True)
+        died = [(p["perm"], p["rcE"], p["rcG"]) for p in perms if p["rcE"] < 0 or p["rcG"] < 0]
+        if died:      # whatever the order: asn1c must not be killed by a signal (was C12-print-constraints-stale-asn)
+            run.violation("oracle:asn1c-killed", dict(rep, what="asn1c -E -F -print-constraints / code generation terminated by a signal on a cross-module "
+                          "constraint set", orders=[list(map(str, x)) for x in died[:4]]))
         rcd, dd = r["det"]
         if rcd != base["rcG"] or dd:
             run.violation("oracle:determinism", dict(rep, what="repeated multi-file runs differ (cross-module constraint set)", files=dd[:8]))
@@ -1356,38 +1349,6 @@ def main(tier):
                                    "-D spellings: per-type files are compared with the header line quoting the command line removed"])
 
 
-def same_xmod_result(perms, pa, pb):
-    a = [p for p in perms if p["perm"] == pa][0]
-    b = [p for p in perms if p["perm"] == pb][0]
-    if (a["rcE"], a["rcG"]) != (b["rcE"], b["rcG"]):
-        return False
-    if any(a["pc"].get(m, {}).get("text") != b["pc"].get(m, {}).get("text") for m in set(a["pc"]) | set(b["pc"])):
-        return False
-    return not diff_trees(a["files"], b["files"])
-
-
-def explain_stale_asn(xs, perms):
-    """finding C12-print-constraints-stale-asn, as narrow as its cause: the set has a type whose constraint stays a
-    TYPE after resolution (contained subtype naming an unconstrained type) in module M; code generation and
-    its files are the same in every order; `-E -F -print-constraints` dies (SIGSEGV/SIGABRT: mod->asn1p of a
-    module that did not come from the first file is a freed pointer) only in orders where M's file is not the
-    first, and prints the same text in all other orders"""
-    X = xs.get("xs")
-    if X is None:
-        return False
-    ms = {t["mod"] for t in X.types if any(l[0] == "I" and X.leaves(l[1]) is None for l in t["own"])}
-    if not ms:
-        return False
-    if any((p["rcG"], ) != (perms[0]["rcG"], ) or diff_trees(p["files"], perms[0]["files"]) for p in perms):
-        return False
-    ok = [p for p in perms if p["rcE"] == 0]
-    if any(p["rcE"] not in (0, -11, -6) for p in perms) or not ok:
-        return False
-    if any(p["pc"].get(m, {}).get("text") != ok[0]["pc"].get(m, {}).get("text") for p in ok for m in set(p["pc"]) | set(ok[0]["pc"])):
-        return False
-    return all(p["perm"][0] not in ms for p in perms if p["rcE"] != 0)
-
-
 def model_word_leaves(word, X):
     """a word of the c12_pull answer in the form constraint_leaves gives for the C's text"""
     if word == "N":
@@ -1405,49 +1366,13 @@ def model_word_leaves(word, X):
     return out
 
 
-def includes_foreign_with_refs(mods):
-    """root-cause predicate of finding C12-includes-foreign-namespace, on the module texts: module P has a contained
-    subtype constraint naming a type U it imports from module Q, and U's own constraint (in Q) holds a reference
-    (a value or type name).  Returns the (P, Q) index pairs."""
-    out = []
-    texts = [strip_comments(m["text"]) for m in mods]
-    names = [m["name"] for m in mods]
-    for pi, t in enumerate(texts):
-        imp = re.search(r"\bIMPORTS\b(.*?);", t, flags=re.S)
-        if not imp:
-            continue
-        imported = {}
-        for mm in re.finditer(r"([^;]*?)\bFROM\s+([A-Z][A-Za-z0-9-]*)", imp.group(1)):
-            for sym in re.findall(r"[A-Za-z][A-Za-z0-9-]*", mm.group(1)):
-                imported[sym] = mm.group(2)
-        body = t[imp.end():]
-        for mm in re.finditer(r"[(|^]\s*(?:INCLUDES\s+)?([A-Z][A-Za-z0-9-]*)\s*[)|^]", body):
-            u = mm.group(1)
-            if u in imported and imported[u] in names:
-                qi = names.index(imported[u])
-                d = re.search(r"\b%s\s*::=\s*[^\n]*?\((.*)\)" % re.escape(u), texts[qi])
-                if d and re.search(r"[A-Za-z]", re.sub(r"\b(SIZE|FROM|INCLUDES|MIN|MAX)\b", "", d.group(1))):
-                    out.append((pi, qi))
-    return sorted(set(out))
-
-
 def classify_rich_fixpoint(m, t1, rc1, se1):
     """rich modules: the recorded findings whose root-cause predicate the module satisfies, else None"""
     if rc1 != 0 and "Assertion" in se1 and text_has_nested_of_constraint(t1):
         return "C12-nested-of"
     if rc1 == 0 and text_has_triple_paren(m["text"]) and text_has_double_paren_after_print(t1):
         return "C12-paren-collapse"
-    if rc1 != 0 and includes_inline_type(m["text"]) and re.search(r"\(\s+(%s)\b" % BUILTIN_TYPE_WORDS, t1):
-        return "C12-includes-keyword-dropped"
     return None
-
-
-BUILTIN_TYPE_WORDS = "INTEGER|BOOLEAN|NULL|REAL|OCTET|BIT|ENUMERATED|SEQUENCE|SET|CHOICE|[A-Za-z0-9]+String|OBJECT|RELATIVE-OID"
-
-
-def includes_inline_type(text):
-    """root cause predicate of C12-includes-keyword-dropped: `INCLUDES` followed by a type that is not a reference"""
-    return bool(re.search(r"\bINCLUDES\s+(\[[^\]]*\]\s*)?(%s)\b" % BUILTIN_TYPE_WORDS, strip_comments(text)))
 
 
 def classify_corpus_fixpoint(src, t1, r):
@@ -1456,8 +1381,6 @@ def classify_corpus_fixpoint(src, t1, r):
         return "C12-nested-of"
     if r["E1"] == 0 and text_has_triple_paren(src) and text_has_double_paren_after_print(t1):
         return "C12-paren-collapse"
-    if r["E1"] != 0 and includes_inline_type(src) and re.search(r"\(\s+(%s)\b" % BUILTIN_TYPE_WORDS, t1):
-        return "C12-includes-keyword-dropped"
     return None
 
 
